@@ -1,4 +1,203 @@
-(* C09 - formatting is idempotent. *)
+(* C09 - formatting is idempotent.
+   Statements over the executable formatter model (model/Fmt.v): fmt_write = TemplateFile.Write, reparse = the tree the
+   parser rebuilds from the printed text; both are tied to the real formatter by the harness on every run
+   (fmt_write (parse x) = format x, fmt_write (reparse (parse x)) = format (format x)).
+   Full idempotence is refuted; the partial theorem says the named causes are the only ones; two-pass convergence says
+   the second pass always is a fixed point.  This file holds statements only; each is closed by [exact]. *)
 From Coq.Strings Require Import Byte String.
-From Coq Require Import List Arith.
-From V Require Import lib.Bytes.
+From Coq Require Import List Arith Bool.
+Import ListNotations.
+From V Require Import lib.Bytes model.Fmt model.FmtReasons spec.FmtSpec proofs.FmtProof.
+
+Definition mk (ch : list node) : file := {| f_header := []; f_pkg := bs "package p"; f_nodes := [FTempl (bs "t()") ch] |}.
+
+(* ---------- partial: no named cause => the first pass is a fixed point ---------- *)
+(* For every file: when unstable_reasons names no cause (no IndentAttrs/IndentChildren/GoCode-multiline flag that the
+   parser would recompute differently from the printed text, no stored trailing space that the next Write overrides),
+   formatting the formatted text again gives the same bytes. *)
+Theorem C09_no_reason_stable : forall f : file, unstable_reasons f = [] -> fmt_write (reparse f) = fmt_write f.
+Proof. exact no_reason_stable. Qed.
+Print Assumptions C09_no_reason_stable.
+
+(* non-vacuity: a multi-line element with attributes, inline children, if/else, br, a {{ }} block and a call with a
+   children block has no reason *)
+Definition c09_ok := mk [NElem (bs "div") [AConst (bs "id") (bs "x") false false; AExpr (bs "class") [bs "c"]] false
+   [NText (bs "Hello,") SpHoriz; NElem (bs "b") [] false [NStr (bs "name") SpNone] false SpHoriz; NText (bs "and") SpHoriz; NElem (bs "i") [] false [NText (bs "you") SpNone] false SpVert;
+    NIf (bs "ok") [NElem (bs "span") [] false [NText (bs "yes") SpNone] false SpVert] [] [NCallT (bs "no()")];
+    NElem (bs "br") [] false [] false SpVert; NGoCode (bs "x := 1") false SpVert] true SpVert; NCall [bs "wrap()"] [bs "wrap()"] [NChildren]].
+Example C09_ex_no_reason : unstable_reasons c09_ok = [] /\ fmt_write c09_ok = (bs "package p
+
+templ t() {
+	<div id=""x"" class={ c }>
+		Hello, <b>{ name }</b> and <i>you</i>
+		if ok {
+			<span>yes</span>
+		} else {
+			@no()
+		}
+		<br/>
+		{{ x := 1 }}
+	</div>
+	@wrap() {
+		{ children... }
+	}
+}
+").
+Proof. split; vm_compute; reflexivity. Qed.
+
+(* ---------- refutation of full idempotence, one witness per named cause (printed texts shown) ---------- *)
+(* <div>@foo()</div>: a child without trailing-space mark is followed by a forced line break even in a single-line
+   element; the printed text is read back with IndentChildren *)
+Definition c09_nontrailer := mk [NElem (bs "div") [] false [NCallT (bs "foo()")] false SpVert].
+Lemma C09_witness_NonTrailerChildInline :
+  fmt_write c09_nontrailer = (bs "package p
+
+templ t() {
+	<div>@foo()
+</div>
+}
+") /\
+  fmt_write (reparse c09_nontrailer) = (bs "package p
+
+templ t() {
+	<div>
+		@foo()
+	</div>
+}
+") /\
+  unstable_reasons c09_nontrailer = bs "NonTrailerChildInline" ++ [x0a].
+Proof. repeat split; vm_compute; reflexivity. Qed.
+
+(* a child that prints on several lines (an element with a conditional attribute) inside a single-line parent *)
+Definition c09_multiline := mk [NElem (bs "span") [] false [NText (bs "a") SpHoriz; NElem (bs "b") [ACond (bs "c") [ABoolConst (bs "x")] []] true [] false SpNone] false SpVert].
+Lemma C09_witness_MultiLineChildInline :
+  fmt_write c09_multiline = (bs "package p
+
+templ t() {
+	<span>a <b
+	if c {
+		x
+	}
+></b></span>
+}
+") /\
+  fmt_write (reparse c09_multiline) = (bs "package p
+
+templ t() {
+	<span>
+		a <b
+	if c {
+		x
+	}
+></b>
+	</span>
+}
+") /\
+  unstable_reasons c09_multiline = bs "MultiLineChildInline" ++ [x0a] ++ bs "TrailingSpaceRewritten" ++ [x0a].
+Proof. repeat split; vm_compute; reflexivity. Qed.
+
+(* <div id="x" if c { hidden }></div> on one line: the conditional attribute prints on several lines, the element is read
+   back with IndentAttrs *)
+Definition c09_condattr := mk [NElem (bs "div") [AConst (bs "id") (bs "x") false false; ACond (bs "c") [ABoolConst (bs "hidden")] []] false [] false SpVert].
+Lemma C09_witness_CondAttrInline :
+  fmt_write c09_condattr = (bs "package p
+
+templ t() {
+	<div id=""x"" if c {
+	hidden
+}></div>
+}
+") /\
+  fmt_write (reparse c09_condattr) = (bs "package p
+
+templ t() {
+	<div
+		id=""x""
+		if c {
+			hidden
+		}
+	></div>
+}
+") /\
+  unstable_reasons c09_condattr = bs "CondAttrInline" ++ [x0a].
+Proof. repeat split; vm_compute; reflexivity. Qed.
+
+(* a {{ }} block whose Multiline flag is false while its contents hold a line break *)
+Definition c09_gocode := mk [NGoCode (bs "x := 1" ++ [x0a] ++ bs "y := 2") false SpVert].
+Lemma C09_witness_GoCodeMultilineFlag :
+  fmt_write c09_gocode = (bs "package p
+
+templ t() {
+	{{ x := 1
+y := 2 }}
+}
+") /\
+  fmt_write (reparse c09_gocode) = (bs "package p
+
+templ t() {
+	{{x := 1
+y := 2
+	}}
+}
+") /\
+  unstable_reasons c09_gocode = bs "GoCodeMultilineFlag" ++ [x0a].
+Proof. repeat split; vm_compute; reflexivity. Qed.
+
+(* a stored horizontal space that the next Write overrides: a white-space node hid the end of the list from the text *)
+Definition c09_trail := mk [NFor (bs "_, x := range xs") [NText (bs "a") SpHoriz; NWs]].
+Lemma C09_witness_TrailingSpaceRewritten :
+  fmt_write c09_trail = (bs "package p
+
+templ t() {
+	for _, x := range xs {
+		a 	}
+}
+") /\
+  fmt_write (reparse c09_trail) = (bs "package p
+
+templ t() {
+	for _, x := range xs {
+		a
+	}
+}
+") /\
+  unstable_reasons c09_trail = bs "TrailingSpaceRewritten" ++ [x0a].
+Proof. repeat split; vm_compute; reflexivity. Qed.
+
+(* The full statement "forall f, fmt_write (reparse f) = fmt_write f" is false of the model (and of templ: the harness
+   reproduces each witness on the real formatter). *)
+Theorem C09_idempotent_refuted : exists f : file, shallow f = true /\ fmt_write (reparse f) <> fmt_write f.
+Proof. exists c09_nontrailer. split; [reflexivity|]. vm_compute. discriminate. Qed.
+Print Assumptions C09_idempotent_refuted.
+
+(* ---------- two-pass convergence ---------- *)
+(* For every file whose templates nest at most 200 deep (the model's fuel; deeper files fail the tie): the tree read back
+   from the first pass names no cause ... *)
+Theorem C09_after_one_pass_no_reason : forall f : file, shallow f = true -> unstable_reasons (reparse f) = [].
+Proof. exact reparse_no_reason. Qed.
+Print Assumptions C09_after_one_pass_no_reason.
+
+(* ... hence whatever the first pass does to the layout, the second pass's output is a fixed point. *)
+Theorem C09_two_pass_convergence : forall f : file, shallow f = true -> fmt_write (reparse (reparse f)) = fmt_write (reparse f).
+Proof. exact two_pass_convergence. Qed.
+Print Assumptions C09_two_pass_convergence.
+
+(* non-vacuity: a shallow file whose first pass is NOT a fixed point but whose second pass is *)
+Example C09_ex_convergence : shallow c09_nontrailer = true /\ fmt_write (reparse c09_nontrailer) <> fmt_write c09_nontrailer
+  /\ fmt_write (reparse (reparse c09_nontrailer)) = fmt_write (reparse c09_nontrailer).
+Proof. split; [reflexivity|]. split; [vm_compute; discriminate|vm_compute; reflexivity]. Qed.
+
+(* convergence is a statement about the printed text: as trees, reparse is not idempotent (the second pass moves
+   <span>@foo()</span> to its own line, so the stored trailing space of its left sibling changes from Horizontal to Vertical) *)
+Definition c09_tree := mk [NFor (bs "_, x := range xs") [NElem (bs "span") [] false [NText (bs "a") SpNone] false SpHoriz; NElem (bs "span") [] false [NCallT (bs "foo()")] false SpVert]].
+Lemma C09_reparse_not_idempotent_on_trees : reparse (reparse c09_tree) <> reparse c09_tree
+  /\ fmt_write (reparse (reparse c09_tree)) = fmt_write (reparse c09_tree).
+Proof. split; [vm_compute; intro H; inversion H|vm_compute; reflexivity]. Qed.
+
+(* the depth guard is needed only because the model's recursion is fuelled (200 levels; IndentChildren is recomputed from
+   a fresh 200-level print of the children): on a 203-deep tree the truncated prints disagree and a third pass still moves *)
+Fixpoint c09_chain (k : nat) : node := match k with O => NGoCode (bs "x") true SpNone | S k' => NElem (bs "i") [] false [c09_chain k'] false SpNone end.
+Definition c09_deep := mk [NElem (bs "span") [] false [c09_chain 201] false SpVert].
+Lemma C09_convergence_guard_needed : shallow c09_deep = false /\
+  bytes_eqb (fmt_write (reparse (reparse c09_deep))) (fmt_write (reparse c09_deep)) = false.
+Proof. split; vm_compute; reflexivity. Qed.
